@@ -268,15 +268,11 @@ def direct_gzip_checks():
         out = mw.request(lambda: resp, make_request('gzip', MSIE_UA))
         assert out.content_encoding == expect, mimetype
         assert decoded(out, out.get_data()) == big
-    # MSIE without a content type blows up the same way as ever
+    # MSIE without a content type: not textual, handed back uncompressed (was an AttributeError before fix bb56267)
     resp = Response(big)
     del resp.headers['Content-Type']
-    try:
-        mw.request(lambda: resp, make_request('gzip', MSIE_UA))
-    except AttributeError:
-        pass
-    else:
-        raise AssertionError('expected AttributeError')
+    out = mw.request(lambda: resp, make_request('gzip', MSIE_UA))
+    assert out is resp and out.content_encoding is None and out.get_data() == big
     # ... but not if gzip is not accepted in the first place
     out = mw.request(lambda: resp, make_request(None, MSIE_UA))
     assert out is resp and out.get_data() == big
